@@ -209,6 +209,9 @@ def reset_globals(clear_match_caches: bool = True) -> None:
             lmx._AST_XPATH_CACHE.clear()
 
 
+_GENERATED_ACCESSORS = {"get_child_nodes", "get_child_nodes_with_field", "iter_child_fields", "get_properties"}
+
+
 def from_library(exc: BaseException) -> bool:
     """True if the exception's traceback passes through the code under test."""
     tb = exc.__traceback__
@@ -216,6 +219,8 @@ def from_library(exc: BaseException) -> bool:
         fn = tb.tb_frame.f_code.co_filename
         if fn.startswith(REPO_SRC):
             return True
+        if fn == "<string>" and tb.tb_frame.f_code.co_name in _GENERATED_ACCESSORS:
+            return True  # per-class accessors the library generates with exec
         tb = tb.tb_next
     return False
 
@@ -482,11 +487,17 @@ def run_shard(module: Any, ctx: Ctx) -> dict:
         from pbt import models_v2
 
         runner.warm = ["none", "bases", "subs"][ctx.shard % 3]
-        models_v2.warm(runner.warm)
-        if getattr(module, "WARM_LEGACY", False):
-            from pbt import models_legacy
+        try:
+            models_v2.warm(runner.warm)
+            if getattr(module, "WARM_LEGACY", False):
+                from pbt import models_legacy
 
-            models_legacy.warm(runner.warm)
+                models_legacy.warm(runner.warm)
+        except Exception as e:  # noqa: BLE001
+            # the warm-up only fixes a first-use order; if the code under test cannot even do that, the
+            # cases below meet the same failure inside an oracle, where it is reported with a replay
+            if not from_library(e):
+                raise
         reset_globals(True)
     only = os.environ.get("VERIF_PARTS")
     for part in module.PARTS:
